@@ -411,7 +411,13 @@ func (b *Builder) Unit(kind hist.UnitKind) hist.Unit {
 		if r.Chance(1, 5) {
 			// ... and comments in front of it are logged with it: tools tag their
 			// statements, mysqldump wraps DDL in version comments
-			switch r.Intn(5) {
+			switch r.Intn(8) {
+			case 5: // nothing between the end of the comment and the keyword
+				u.SQL = "/*c*/" + u.SQL
+			case 6:
+				u.SQL = "/**/" + u.SQL
+			case 7:
+				u.SQL = "/* a *//* b */" + u.SQL
 			case 0:
 				u.SQL = "/* ApplicationName=verif */ " + u.SQL
 			case 1:
